@@ -125,10 +125,13 @@ pub const WS: [(&str, &str); 7] = [
     ("lf3", "\n\n\n"),
     ("crlf", "\r\n"),
 ];
-pub const CM: [(&str, &str); 7] = [
+pub const CM: [(&str, &str); 10] = [
     ("block", " /* c */ "),
     ("block-own-line", "\n/* c */\n"),
     ("block-multiline", "\n/* a\nb */\n"),
+    ("block-multiline-indented", "\n    /* a\n       b */\n"),
+    ("block-multiline-trailing", " /* a\n\nb */\n"),
+    ("block-multiline-tab", "\n\t/* a\n\tb */\n"),
     ("line", " // c\n"),
     ("line-own-line", "\n// c\n"),
     ("block-indented", "\n      /* c */\n"),
@@ -571,6 +574,59 @@ pub fn run(tier: &str) -> Run {
             }
         }
     }
+    // a loaded file plus n elements of one kind pushed through the API (no sort_new_items): the
+    // writer has to keep n equal-ranked new elements in push order
+    let base_text = corpus::rich_docs(&g)[0].doc.text();
+    let counts: &[usize] = if tier == "thorough" { &[1, 2, 3, 5, 8, 13, 20, 21, 22, 32, 40, 64, 100, 257] } else { &[1, 3, 8, 21, 40, 64] };
+    let mut hist: Vec<(&str, usize, bool)> = Vec::new();
+    for kind in crate::c05::LIST_KINDS {
+        for n in counts {
+            hist.push((kind, *n, false));
+            hist.push((kind, *n, true));
+        }
+    }
+    let hres = par_map(
+        hist.len(),
+        &|j| {
+            let (kind, n, from_new) = hist[j];
+            let built = vcore::explore::guard(|| {
+                let mut f = if from_new { a2lfile::new() } else { a2lfile::load_from_string(&base_text, None, true).unwrap().0 };
+                let mut k = 7000u32;
+                for _ in 0..n {
+                    crate::gen_builders::push_module_item(&mut f, kind, &mut k, 1);
+                }
+                f
+            });
+            match built {
+                Err(p) => RT::Viol { oracle: "panic-build", what: p },
+                Ok(f) => roundtrip_model(&f),
+            }
+        },
+        &|j| {
+            println!("MACHINERY-ERROR: C01 history case {j} hangs");
+            std::process::exit(2);
+        },
+    );
+    for (j, r) in hres.into_iter().enumerate() {
+        let (kind, n, from_new) = hist[j];
+        run.evaluations += 1;
+        run.transitions += 3 + n as u64;
+        let h = fnv1a(format!("push-history {kind} {n} {from_new}").as_bytes());
+        run.states.insert(h);
+        match r {
+            RT::Ok { .. } => {
+                run.nontrivial.insert(h);
+                run.outcome("push-history: stable");
+            }
+            RT::NotAccepted => run.outcome("push-history: not accepted"),
+            RT::Viol { oracle, what } => {
+                run.outcome("push-history: violation");
+                let key = if oracle.starts_with("panic") { format!("C01/{oracle} {}", vcore::explore::panic_key(&what)) } else { format!("C01/{oracle}/push-history:{kind}:{}", if from_new { "new-file" } else { "loaded-file" }) };
+                run.violation(key, format!("{} + {n} x push {kind}: {what}", if from_new { "a2lfile::new()" } else { "loaded rich(0)" }), json!({"history": {"kind": kind, "n": n, "from_new": from_new}}));
+            }
+        }
+    }
+    run.require("push-history: stable", 100);
     run.require("api: stable", 500);
     run.require("grammar: stable", 1000);
     run.require("ws: stable", 1000);
@@ -588,6 +644,22 @@ pub fn replay(v: &Value) -> Result<String, String> {
         let (_, mut f) = crate::gen_builders::build_slot(j / 8, 1 + (j % 2), (j / 2) % 2 * 2);
         if (j / 4) % 2 == 1 {
             f.sort_new_items();
+        }
+        return match roundtrip_model(&f) {
+            RT::Viol { oracle, what } => Err(format!("{oracle}: {what}")),
+            _ => Ok("stable".into()),
+        };
+    }
+    if let Some(h) = v.get("history") {
+        let kind = h["kind"].as_str().unwrap_or("").to_string();
+        let n = h["n"].as_u64().unwrap_or(0) as usize;
+        let from_new = h["from_new"].as_bool().unwrap_or(false);
+        let g = corpus::grammar();
+        let base_text = corpus::rich_docs(&g)[0].doc.text();
+        let mut f = if from_new { a2lfile::new() } else { a2lfile::load_from_string(&base_text, None, true).map_err(|e| e.to_string())?.0 };
+        let mut k = 7000u32;
+        for _ in 0..n {
+            crate::gen_builders::push_module_item(&mut f, &kind, &mut k, 1);
         }
         return match roundtrip_model(&f) {
             RT::Viol { oracle, what } => Err(format!("{oracle}: {what}")),
